@@ -90,7 +90,7 @@ struct GetCandidatesResponse {
 /// * `tx` - sessionを送信するためのchannel
 pub(crate) fn make_get_candidates_method(
     module: &mut RpcModule<MethodContext>,
-    tx: Sender<(SessionId, Vec<RespondedCandidate>, Context)>,
+    store: Arc<Mutex<SessionStore>>,
 ) -> anyhow::Result<()> {
     module.register_method("GetCandidates", move |params, ctx, _| {
         let params = params.parse::<GetCandidatesRequest>()?;
@@ -122,9 +122,11 @@ pub(crate) fn make_get_candidates_method(
             .collect::<Vec<_>>();
         let session_id = SessionId::new();
 
-        // sessionを送信して記録しておく
-        tx.send((session_id.clone(), candidates.clone(), context.clone()))
-            .unwrap();
+        // 応答を返す前にsessionを記録しておく
+        store
+            .lock()
+            .unwrap()
+            .add_session(&session_id, &candidates, &context);
 
         RpcResult::Ok(GetCandidatesResponse {
             session_id: session_id.to_string(),
@@ -148,7 +150,7 @@ pub(crate) fn make_get_candidates_method(
 /// * `tx` - sessionを送信するためのchannel
 pub(crate) fn make_get_proper_candidates_method(
     module: &mut RpcModule<MethodContext>,
-    tx: Sender<(SessionId, Vec<RespondedCandidate>, Context)>,
+    store: Arc<Mutex<SessionStore>>,
 ) -> anyhow::Result<()> {
     module.register_method("GetProperCandidates", move |params, ctx, _| {
         let params = params.parse::<GetProperCandidatesRequest>()?;
@@ -175,9 +177,11 @@ pub(crate) fn make_get_proper_candidates_method(
             .collect::<Vec<_>>();
         let session_id = SessionId::new();
 
-        // sessionを送信して記録しておく
-        tx.send((session_id.clone(), candidates.clone(), Context::proper()))
-            .unwrap();
+        // 応答を返す前にsessionを記録しておく
+        store
+            .lock()
+            .unwrap()
+            .add_session(&session_id, &candidates, &Context::proper());
 
         RpcResult::Ok(GetCandidatesResponse {
             session_id: session_id.to_string(),
